@@ -24,6 +24,8 @@ def run(tier, seed):
                  cfgs, "{link,image} x 8 texts x 10 destinations x 6 titles; distinct = distinct outputs", "text x destination x title")
     gen_universe(rep, "vf.oracles2:c16_labels", "vf.oracles2:gen_c16_labels", tier, "common.utils.normalizeReference", "labels equal under Unicode case folding + whitespace collapsing match",
                  ["commonmark"], "all pairs over 30 labels with case/whitespace/special-casing variants", "label pairs")
+    from .. import frame as _frame
+    _frame.add_env_writer_obligations(rep, "C16")
     rep.explanation = ("Mixed. Deductive: the reference rule's line accounting is proved - when it stores state.line (the end of the definition's map) the running count `lines` equals the number of line endings in the text consumed so far and the "
                        "text ends at a line end, so the recorded map is exactly the definition's own lines; this rests on the contracts of parseLinkDestination (consumes no line ending, reports none - the pinned tree violated this, see DESIGN 8.3) and parseLinkTitle (reports the line endings inside the title). Bounded: seeding, first-wins/duplicate records, inline-vs-reference form and label matching are relational contracts on the real parse/render over the listed universes. "
                        "Case folding is additionally checked exhaustively over all Unicode scalar values when the casefold module ran (a complete, loop-free enumeration).")
